@@ -67,7 +67,7 @@ def shmsim(ctx):
     return ctx.build_harness("shmsim", ["shmsim"], ["hooks"], release=True)["shmsim"]
 
 
-def run_sched(ctx, binary, focus, count, timeout=1800):
+def run_sched(ctx, binary, focus, count, timeout=5400):
     parts = ctx.run_shards(binary, ["sched", "--focus", focus, "--seed", str(ctx.seed), "--count", str(count)], NPROC, timeout)
     return merge_sched(parts)
 
